@@ -150,10 +150,19 @@ func init() {
 			closeConcurrently := ci%7 == 3
 			var cols []*sinkCollector
 			var addrs []string
+			dead := 0
+			if ci%10 == 9 {
+				// two destinations, nobody listens on the first: its sends fail every other time, the second gets everything
+				dests, dead = 2, 1
+			}
 			for i := 0; i < dests; i++ {
 				c := newCollector()
 				cols = append(cols, c)
-				addrs = append(addrs, c.s.addr())
+				if i < dead {
+					addrs = append(addrs, deadUDPAddr())
+				} else {
+					addrs = append(addrs, c.s.addr())
+				}
 			}
 			proto := m3.Compact
 			if !compact {
@@ -221,7 +230,7 @@ func init() {
 			}
 			// the very first report, immediately after construction
 			first := rep.AllocateCounter("first", map[string]string{"p": "q"})
-			log(M{"e": "scn", "x": ci + 1, "scenario": fmt.Sprintf("free-%d", ci), "producers": ngo, "nrep": nrep, "closers": 1, "flushers": 1, "qcap": qcap, "max_packet": maxPacket, "dests": dests})
+			log(M{"e": "scn", "x": ci + 1, "scenario": fmt.Sprintf("free-%d", ci), "producers": ngo, "nrep": nrep, "closers": 1, "flushers": 1, "qcap": qcap, "max_packet": maxPacket, "dests": dests, "alive": aliveList(dests, dead)})
 			report("main", "counter", first, "first", map[string]string{"p": "q"}, 424242, 0)
 			var wg sync.WaitGroup
 			// one histogram bucket handle shared by all goroutines (what concurrent report passes over one histogram do)
